@@ -480,17 +480,17 @@ def configs(ctx):
         add("env", "KDisks", "K1", "SlotDist", "ArgsEnvQ", "OpsEnv", 3)
         add("sim", "KAll", "K3", "SlotColl", "ArgsAll", "OpsAll", 6, sim=1500)
     else:
-        add("values", "KAll", "K2", "SlotDist", "ArgsValues", "OpsPut", 3)
-        add("few", "KMems", "K2", "SlotDist", "ArgsFew", "OpsMap", 4)
-        add("few", "KDisks", "K2", "SlotDist", "ArgsFewQ", "OpsMap", 4)
+        add("values", "KMems", "K2", "SlotDist", "ArgsValues", "OpsPut", 3)
+        add("values", "KDisks", "K2", "SlotDist", "ArgsValuesD", "OpsPut", 3)
+        add("few", "KMems", "K2", "SlotDist", "ArgsFew", "OpsPut", 4)
+        add("few", "KDisks", "K2", "SlotDist", "ArgsFewQ", "OpsPut", 4)
         add("uses", "KAll", "K2", "SlotColl", "ArgsUses", "OpsUse", 3)
-        add("uses4", "KHold2", "K2", "SlotColl", "ArgsUsesQ", "OpsUse", 4)
-        add("hold", "KHold2", "K3", "SlotColl", "ArgsHold", "OpsUse", 4)
-        add("hold", "KHold3", "K2", "SlotColl", "ArgsHold", "OpsUse", 4)
-        add("env", "KDisks", "K2", "SlotDist", "ArgsEnv", "OpsEnv", 3)
-        add("sim", "KAll", "K3", "SlotColl", "ArgsAll", "OpsAll", 6, sim=20000)
-        add("sim8", "KConcs", "K3", "SlotColl", "ArgsUses", "OpsAll", 8, handles=3, sim=5000)
-        add("envsim", "KDisks", "K2", "SlotDist", "ArgsEnv", "OpsEnv", 5, sim=15000)
+        add("hold", "KConcs", "K2", "SlotColl", "ArgsHold", "OpsUse", 4)
+        add("hold3", "KAll", "K3", "SlotColl", "ArgsHold", "OpsUse", 3)
+        add("env", "KDisks", "K1", "SlotDist", "ArgsEnv", "OpsEnv", 3)
+        add("sim", "KAll", "K3", "SlotColl", "ArgsAll", "OpsAll", 6, sim=10000)
+        add("sim8", "KConcs", "K3", "SlotColl", "ArgsUses", "OpsAll", 8, handles=3, sim=4000)
+        add("envsim", "KDisks", "K2", "SlotDist", "ArgsEnv", "OpsEnv", 5, sim=5000)
     return C
 
 
@@ -641,7 +641,7 @@ def run(ctx):
     ctx.extra["replay_cpu_seconds"] = walls
 
     # ---- 3. the binding is not vacuous: one field of one generated history corrupted must be noticed ----
-    c0 = next(c for c in CF if c["name"].startswith("values"))
+    c0 = next(c for c in CF if c["name"].startswith("values") and "disk" in c["kinds"])
     h = next(h for h in hists[(c0["name"], "disk")] if h[0]["op"] == "getset" and h[0]["obs"]["r"] == "ok" and h[0]["obs"]["lines"] and h[-1]["op"] == "getset")
     bad_h = json.loads(json.dumps(h)); bad_h[0]["obs"]["lines"] = bad_h[0]["obs"]["lines"][:-1] + ["corrupted"]
     bad_h2 = json.loads(json.dumps(h)); bad_h2[0]["post"]["files"]["d1"][h[0]["k"]] = {"t": "absent", "v": []}
